@@ -15,6 +15,8 @@ import PS.Proofs.UcfgFromDftaCount
 import PS.Proofs.UcfgFromDftaNodup
 import PS.Proofs.UcfgFromDftaClean
 import PS.Proofs.FromCfg
+import PS.Proofs.UcfgFromDftaCfg
+import PS.Proofs.Mass
 namespace PS.C06
 open PS PS.G PS.U PS.U.FD DFTA
 
@@ -268,6 +270,29 @@ theorem C06_cfg_unambiguous {S : Type} [DecidableEq S] (G : TT S Unit) (hk : (AL
   have h := congrArg List.length (reduceAll_derivs (fromCFG G) t)
   simp only [List.length_map] at h
   rw [h, FromCfg.allDerivs_fromCFG_length G hk hr]
+
+/-- … and `programs()` of it, when it returns `n` for a grammar all of whose derivations finish
+    within `k` levels (`PS.G.bounded`, i.e. a non-recursive grammar), is the NUMBER of programs the
+    CFG generates: the length of the duplicate-free list `PS.G.lang G k G.start`, which contains
+    exactly the generated programs -/
+theorem C06_cfg_count {S : Type} [DecidableEq S] (G : TT S Unit) (hk : (AList.keys G.rules).Nodup)
+    (hr : ∀ e ∈ G.rules, (AList.keys e.2).Nodup) (k : Nat) (hb : bounded G k G.start = true)
+    (fuel n : Nat) (hp : programs (fromCFG G) fuel = some n) :
+    n = (lang G k G.start).length ∧ (lang G k G.start).Nodup ∧
+    ∀ t, t ∈ lang G k G.start ↔ gen G t G.start = true := by
+  have hrn : RowsNodup G := fun nt rs hl => hr (nt, rs) (AList.lookup_some_mem hl)
+  have hst : (fromCFG G).starts = [FromCfg.toU G.start] := rfl
+  have hbu : ∀ s ∈ (fromCFG G).starts, boundedU (fromCFG G) k s = true := by
+    intro s hs
+    rw [hst] at hs
+    simp only [List.mem_singleton] at hs
+    rw [hs, FromCfg.boundedU_fromCFG G hk hr]
+    exact hb
+  have := Ops.programs_eq_length (fromCFG G) fuel n k hp hbu
+  rw [hst] at this
+  simp only [List.map_cons, List.map_nil, List.sum_cons, List.sum_nil, Nat.add_zero] at this
+  rw [FromCfg.langU_fromCFG G hk hr] at this
+  exact ⟨this, lang_nodup G hrn k G.start, fun t => mem_lang_of_bounded G hrn k t G.start hb⟩
 
 /-! ## non-vacuity, and finding C06-F1 -/
 namespace Example
